@@ -96,6 +96,11 @@ Theorem C06_matchesb_iff : forall p t, matchesb p t = true <-> matches p t.
 Proof. exact matchesb_iff. Qed.
 Print Assumptions C06_matchesb_iff.
 
+(* "Case-insensitive": two texts have the same [lower] iff they are equal up to the case of ASCII letters. *)
+Theorem C06_lower_is_case_folding : forall a b, lower a = lower b <-> Forall2 ci_eq a b.
+Proof. exact lower_ci. Qed.
+Print Assumptions C06_lower_is_case_folding.
+
 (* Exempt = a pattern of the device profile OR of the user matches (fix F7). *)
 Theorem C06_profile_or_user : forall profile user m,
   exempt (classify (handler_patterns profile user)) m = true <->
